@@ -857,6 +857,9 @@ class ComposerBinary(ComposerBase):
                 )
 
                 if item_size == 3:
+                    if value > 0xffffff:
+                        raise struct.error('3-byte format requires 0 <= number <= 16777215')
+
                     if self.byte_order in [ByteOrder.BIG_ENDIAN, ByteOrder.NETWORK]:
                         composed_bytes += packed_bytes[1:]
                     else:
